@@ -37,7 +37,8 @@ const char *vm_fail_func(void);       /* site of the injected failure, or NULL *
 int vm_fail_line(void);
 const char *vm_fail_kind(void);
 unsigned long vm_total_allocs(void);
-void vm_forget_all(void);             /* drop the tables (after a case was abandoned) */
+void vm_forget_all(void);
+void vm_trace_report(FILE *out);    /* JSON array of the failable allocations since vm_set_oom, in order */             /* drop the tables (after a case was abandoned) */
 
 #ifndef VM_NO_MACROS
 #define malloc(n)            vm_malloc((n), __FILE__, __func__, __LINE__)
